@@ -46,7 +46,7 @@ def grid():
     return sorted(g - set(b))
 
 
-def _case(cid, kind, rel, code, t0, evs, provs=()):
+def _case(cid, kind, rel, code, t0, evs, provs=(), branch=""):
     # de-tie: events relative to t0 must not coincide with timer instants
     forb = set(t0 + x for x in G_SENDS + [TO])
     out = []
@@ -59,8 +59,9 @@ def _case(cid, kind, rel, code, t0, evs, provs=()):
         prev = t
     last = max([e[0] for e in out] + [t0])
     horizon = max(last, t0 + TO) + 40000
+    # branch: "" = RFC 3261 magic cookie, "legacy" = RFC 2543 style branch, "none" = no branch parameter (17.2.3 matching)
     return [cid, "c06", kind, str(rel), str(code), str(t0), ",".join("%d:%s" % e for e in out), str(horizon),
-            ",".join(str(p) for p in provs)]
+            ",".join(str(p) for p in provs), branch]
 
 
 def gen_cases(rng, tier):
@@ -85,6 +86,13 @@ def gen_cases(rng, tier):
                     elif kind == "inv":
                         for g in (1, 499, 501, 31999, 32001):
                             cases.append(_case("ar-%d" % n, kind, rel, code, t0, [(t0 + g, "A")])); n += 1
+    # peers that do not use the magic cookie: retransmissions and the ACK still belong to the transaction
+    for br in ("legacy", "none"):
+        for kind, code in (("ni", 200), ("inv", 486)):
+            for rel in (0, 1):
+                for t0 in (0, 137):
+                    evs = [(t0 + 700, "R"), (t0 + 1200, "A" if kind == "inv" else "R")] if rel == 0 else ([(t0 + 1200, "A")] if kind == "inv" else [])
+                    cases.append(_case("br%d" % n, kind, rel, code, t0, evs, branch=br)); n += 1
     nrand = 120 if tier == "quick" else 3000
     for i in range(nrand):
         kind = rng.choice(["ni", "inv"])
@@ -97,7 +105,8 @@ def gen_cases(rng, tier):
             evs[-1] = (evs[-1][0], "A")
         if rel:
             evs = [e for e in evs if e[1] == "A"]
-        cases.append(_case("x%d" % i, kind, rel, rng.choice([404, 486, 600]) if kind == "inv" else rng.choice([200, 481]), t0, evs))
+        cases.append(_case("x%d" % i, kind, rel, rng.choice([404, 486, 600]) if kind == "inv" else rng.choice([200, 481]), t0, evs,
+                           branch=rng.choice(["", "", "", "legacy", "none"])))
     return cases
 
 
